@@ -646,6 +646,30 @@ func runC11() {
 	m.StopAll()
 }
 
+// connectedWithoutEdge reports whether the mesh stays connected without edge k.
+func connectedWithoutEdge(m *Mesh, k int) bool {
+	adj := map[int][]int{}
+	for i, e := range m.Edges {
+		if i != k {
+			adj[e[0]] = append(adj[e[0]], e[1])
+			adj[e[1]] = append(adj[e[1]], e[0])
+		}
+	}
+	seen := map[int]bool{0: true}
+	todo := []int{0}
+	for len(todo) > 0 {
+		x := todo[0]
+		todo = todo[1:]
+		for _, y := range adj[x] {
+			if !seen[y] {
+				seen[y] = true
+				todo = append(todo, y)
+			}
+		}
+	}
+	return len(seen) == len(m.Nodes)
+}
+
 func runC14() {
 	m := DrawMesh(3, 7, []string{"ring", "diamond", "random", "chain", "tree", "star"})
 	PlaceRoutes(m, true)
@@ -701,6 +725,36 @@ func runC14() {
 	}
 	if !m.WaitConnected(5 * time.Minute) {
 		simrt.Failf("mesh-did-not-reconnect", "configured peers did not reconnect after the last fault", "edges=%v", m.Edges)
+	}
+	// one link of a cycle is lost for good: the mesh stays connected, the
+	// announcements of some origins reach some agents the longer way round from
+	// now on (through neighbours that used to hear them the short way)
+	if len(m.Edges) >= len(m.Nodes) && simrt.Chance(1, 3, "link-down-for-good") {
+		var cands []int
+		for k := range m.Edges {
+			if connectedWithoutEdge(m, k) {
+				cands = append(cands, k)
+			}
+		}
+		if len(cands) > 0 {
+			k := cands[simrt.Choose(len(cands), "down-edge")]
+			a, b := m.Nodes[m.Edges[k][0]].Name, m.Nodes[m.Edges[k][1]].Name
+			simtransport.Hooks().DialFault = func(from, to, addr string) error {
+				if (from == a && to == b) || (from == b && to == a) {
+					return fmt.Errorf("link %s-%s is down", a, b)
+				}
+				return nil
+			}
+			for _, l := range m.Net.Links() {
+				if l.Kind == "peer" && !l.Dead() && ((l.DialNode == a && l.AccNode == b) || (l.DialNode == b && l.AccNode == a)) {
+					l.Reset()
+				}
+			}
+			m.Edges = append(append([][2]int(nil), m.Edges[:k]...), m.Edges[k+1:]...)
+			simrt.Eventf("link %s-%s down for good, edges now %v", a, b, m.Edges)
+			simrt.Probe("c14_link_down_for_good")
+			simrt.Sleep(2 * time.Second)
+		}
 	}
 	// The connects, resets and replays above ran under whatever scheduling the
 	// run drew, starvation included. The observed phase gives every receiver a
